@@ -465,7 +465,7 @@ def run(ctx):
                 "(random byte edits, same-kind token replacement, whitespace, return to the original, jump to a fresh sentence) continue "
                 "from the incremental tree, so they run through erroneous intermediate states; plus single-character delete/replace/insert "
                 "at EVERY byte of small documents; 1/4 of histories with included ranges (kept, re-drawn or dropped per step), 5/8 chunked "
-                "(1,2,3,5,7 bytes); all zoo languages. non-trivial := the re-parse reused >=1 inner node and lexed >=1 token; distinct by hash of the spec",
+                "(1,2,3,5,7 bytes); all zoo languages; plus (round 11) the PRIVATE grammar colwords (zero-width column-dependent token before every x): multi-line documents with line-joining, line-splitting and same-line column-shifting edits, 1-3 steps. non-trivial := the re-parse reused >=1 inner node and lexed >=1 token; distinct by hash of the spec",
         "samples": samples, "totals": tot, "by_language": by_lang, "history_kinds": kinds,
         "correspondence": {"compared": tot["gate"], "equal": tot["match"], "undetermined_state_after_breakdown": tot["undet"],
                            "breakdown_lookahead_decisions_compared": tot["bd"],
